@@ -227,9 +227,35 @@ class Exec:
             elif ff:
                 choice = False
             else:
+                # neither branch is satisfiable: the hypotheses of this path are inconsistent. After a failed obligation
+                # (whose goal is assumed) that is expected; otherwise it is a contradictory contract / model: vacuity
+                if not any(o.status != 'discharged' for o in self.obligations):
+                    # a branch condition taken earlier on this path may simply have been infeasible (dead branch): only
+                    # hypotheses that are inconsistent without the branch conditions count
+                    dec = getattr(self, 'decision_hyps', set())
+                    sv = self.mk_solver(20000, seed=0)
+                    for h in self.hyps:
+                        if h.get_id() not in dec and not _has_quant(h):
+                            sv.add(h)
+                    if sv.check() == z3.unsat:
+                        self.inconsistent = getattr(self, 'inconsistent', 0) + 1
+                        import os as _os
+                        if _os.environ.get('VERIF_DEBUG_VACUITY'):
+                            sc = z3.Solver()
+                            sc.set('unsat_core', True)
+                            hs = [h for h in self.hyps if h.get_id() not in dec and not _has_quant(h)]
+                            for i_, h in enumerate(hs):
+                                sc.assert_and_track(h, 'h%d' % i_)
+                            sc.check()
+                            for c_ in sc.unsat_core():
+                                print('VACUITY CORE', hs[int(str(c_)[1:])].sexpr()[:500])
                 raise PathEnd()
         self.decisions.append(choice)
-        self.hyps.append(cond if choice else z3.Not(cond))
+        hc = cond if choice else z3.Not(cond)
+        self.hyps.append(hc)
+        if not hasattr(self, 'decision_hyps'):
+            self.decision_hyps = set()
+        self.decision_hyps.add(hc.get_id())
         return choice
 
     def assume(self, cond):
@@ -243,6 +269,11 @@ class Exec:
                 self.assume(ch)
             return
         self.hyps.append(cond)
+        if getattr(self, '_deriving', False):
+            # the goal of an obligation, kept as a hypothesis: a consequence, not an assumption (vacuity guard)
+            if not hasattr(self, 'decision_hyps'):
+                self.decision_hyps = set()
+            self.decision_hyps.add(cond.get_id())
 
     @property
     def recording(self):
@@ -331,7 +362,11 @@ class Exec:
                 h = (h * 1000003 + hy.hash()) & 0xFFFFFFFFFFFF
             ob.vc = h
             self.obligations.append(ob)
-        self.assume(goal)
+        self._deriving = True
+        try:
+            self.assume(goal)
+        finally:
+            self._deriving = False
 
     def prove(self, goal):
         """portfolio: z3's outcome on these VCs depends on how the problem is presented (batch vs. incremental
